@@ -336,33 +336,60 @@ func c09EnableResult(c *Ctx, k *core, helper *ssa.Function) {
 			if !ok || litTypeName(al) != ".verifyEnableResp" {
 				continue
 			}
-			e, v, tok := litField(al, "err"), litField(al, "v"), litField(al, "tok")
-			name := relName(f) + "#reply"
-			switch {
-			case e == nil || isNilConst(e):
-				cv, ct := k.vvCall(v, 0), k.vvCall(tok, 1)
-				okp := cv != nil && cv == ct
-				// and if this function verifies, it verified that very config
-				if okp && len(vis) == 1 {
-					okp = vis[0].Recv != nil && recvIs(vis[0].Recv, func(x ssa.Value) bool { return k.vvCall(x, 0) == cv })
-					// success reply only where Verify returned nil or the config is not verifiable
-					pb := k.withSites(&predBuilder{name: k.namer(func(x ssa.Value) string {
-						if x == ssa.Value(vis[0].Call) && vis[0].wrap == nil {
-							return "verifyErr"
-						}
-						return ""
-					})}, vis)
-					g := pb.pathCond(f.Blocks[0], al.Block())
-					r := compareTable(g, []string{"isVerified", "isnil(verifyErr)"}, selAtomsOf(g), func(en env) bool { return !en.B["isVerified"] || en.B["isnil(verifyErr)"] })
-					if len(r.Unknown) > 0 || r.Mismatch != "" {
-						okp = false
-					}
+			// the places the reply is read as a whole (sent): one for a literal; several for a variable filled in steps
+			var uses []ssa.Instruction
+			for _, r := range *al.Referrers() {
+				if ld, ok := r.(*ssa.UnOp); ok && ld.Op == token.MUL {
+					uses = append(uses, ld)
 				}
-				c.check(okp, "enable-result", name+"-success", al.Pos(),
-					"success reply carries the config and serial of the one ViewVersion call that was verified", "a success reply does not carry the (config, serial) pair that was verified")
-			default:
-				c.check(isZeroConst(v) && knownNil(al.Block(), e, false), "enable-result", name+"-failure", al.Pos(),
-					"failure reply carries the Verify error and no config", "a failure reply carries a config, or its error is not known non-nil")
+			}
+			if len(uses) < 2 {
+				uses = []ssa.Instruction{nil}
+			}
+			for _, use := range uses {
+				at := al.Block()
+				e, v, tok := litField(al, "err"), litField(al, "v"), litField(al, "tok")
+				if use != nil {
+					at = use.Block()
+					zc := func(nm string) ssa.Value {
+						x, zero := litFieldAt(al, nm, use)
+						if zero {
+							fa := fieldTypeOf(al, nm)
+							if fa != nil {
+								return ssa.NewConst(nil, fa)
+							}
+						}
+						return x
+					}
+					e, v, tok = zc("err"), zc("v"), zc("tok")
+				}
+				name := relName(f) + "#reply"
+				switch {
+				case e == nil || isNilConst(e):
+					cv, ct := k.vvCall(v, 0), k.vvCall(tok, 1)
+					okp := cv != nil && cv == ct
+					// and if this function verifies, it verified that very config
+					if okp && len(vis) == 1 {
+						okp = vis[0].Recv != nil && recvIs(vis[0].Recv, func(x ssa.Value) bool { return k.vvCall(x, 0) == cv })
+						// success reply only where Verify returned nil or the config is not verifiable
+						pb := k.withSites(&predBuilder{name: k.namer(func(x ssa.Value) string {
+							if x == ssa.Value(vis[0].Call) && vis[0].wrap == nil {
+								return "verifyErr"
+							}
+							return ""
+						})}, vis)
+						g := pb.pathCond(f.Blocks[0], at)
+						r := compareTable(g, []string{"isVerified", "isnil(verifyErr)"}, selAtomsOf(g), func(en env) bool { return !en.B["isVerified"] || en.B["isnil(verifyErr)"] })
+						if len(r.Unknown) > 0 || r.Mismatch != "" {
+							okp = false
+						}
+					}
+					c.check(okp, "enable-result", name+"-success", al.Pos(),
+						"success reply carries the config and serial of the one ViewVersion call that was verified", "a success reply does not carry the (config, serial) pair that was verified")
+				default:
+					c.check(isZeroConst(v) && knownNil(at, e, false), "enable-result", name+"-failure", al.Pos(),
+						"failure reply carries the Verify error and no config", "a failure reply carries a config, or its error is not known non-nil")
+				}
 			}
 		}
 	}
@@ -453,4 +480,18 @@ func c09FastpathGuard(c *Ctx, k *core, rule string) {
 		c.bad(rule, relName(k.enable)+"#fastpath-guard", k.enable.Pos(), "EnableVerification has %d Verify invokes, want 1 (the no-monitor fast path)", len(vis))
 	}
 
+}
+
+// fieldTypeOf: the type of field `name` of the struct allocated by al.
+func fieldTypeOf(al *ssa.Alloc, name string) types.Type {
+	st, ok := al.Type().(*types.Pointer).Elem().Underlying().(*types.Struct)
+	if !ok {
+		return nil
+	}
+	for i := 0; i < st.NumFields(); i++ {
+		if vname(st.Field(i)) == name {
+			return st.Field(i).Type()
+		}
+	}
+	return nil
 }
